@@ -39,7 +39,7 @@ class StructuredRecord(object):
 
     @classmethod
     def _get_regex(cls):
-        if cls._regex is None:
+        if "_regex" not in cls.__dict__ or cls._regex is None:
             cls._regex = DNARegex(cls.structure())
         return cls._regex
 
